@@ -14,6 +14,9 @@
 //!   get = `n` | `s:<pack>:<off>:<len>:<ulen>` | `amb:<all distinct listings, sorted>` — the latter when more than one
 //!   distinct listing exists (unstable sort + binary search may return any of them); the harness then checks
 //!   itself that the returned entry is one of them (`oracle-fail:get-not-a-listing` otherwise).
+//!
+//! Op line:  `c17 psize <size|-> <blobs>`   the real `IndexPack::pack_size()` of one index entry (u32 arithmetic; the harness is
+//!   built with overflow checks) vs `Model/PackU32.lean packSizeChecked` -> `ok <n>` | `ok overflow-panic`
 use std::collections::BTreeSet;
 use std::num::NonZeroU32;
 
@@ -144,7 +147,39 @@ fn gen_pack(rng: &mut Rng, pool: &[[u8; 32]], pack_ids: &mut Vec<[u8; 32]>, stat
     GenPack { tok: format!("{}:{size}:{btok}", hex_id(&pid)), ids }
 }
 
+/// index entries whose listed lengths add up to around 2^32 (the `u32` fold of `pack_size()`)
+fn gen_psize(rng: &mut Rng, stats: &mut Stats) -> String {
+    let n = 1 + rng.below(5);
+    let comp: Vec<bool> = (0..n).map(|_| rng.chance(1, 2)).collect();
+    let overhead: u64 = 36 + comp.iter().map(|c| if *c { 41u64 } else { 37 }).sum::<u64>();
+    // total of the lengths: at / around the largest value that still fits, or anything
+    let target_sum: u64 = match rng.below(6) {
+        0 => (1u64 << 32) - 1 - overhead,
+        1 => (1u64 << 32) - overhead,
+        2 => (1u64 << 32) - 2 - overhead,
+        3 => (1u64 << 32) + rng.below(1 << 20),
+        4 => rng.below(1 << 33),
+        _ => rng.below(1 << 20),
+    };
+    let mut rest = target_sum;
+    let mut blobs = Vec::new();
+    for (i, c) in comp.iter().enumerate() {
+        let len = if i + 1 == comp.len() { rest.min(u64::from(u32::MAX)) } else { rng.below(rest.min(u64::from(u32::MAX)) + 1) };
+        rest -= len;
+        let mut id = [0u8; 32];
+        id[31] = i as u8;
+        blobs.push(format!("{}.d.{}.{len}.{}", hex_id(&id), rng.below(1 << 32), if *c { "7".to_string() } else { "-".to_string() }));
+    }
+    let size = if rng.chance(1, 6) { rng.below(1 << 32).to_string() } else { "-".to_string() };
+    stats.hit(if target_sum + overhead >= (1 << 32) && size == "-" { "psize.overflow" } else { "psize.fits" });
+    format!("c17 psize {size} {}", blobs.join("+"))
+}
+
 pub fn generate(thorough: bool, rng: &mut Rng, ops: &mut Vec<String>, stats: &mut Stats) {
+    for _ in 0..(if thorough { 600 } else { 60 }) {
+        let op = gen_psize(rng, stats);
+        ops.push(op);
+    }
     let n_cases = if thorough { 12_000 } else { 900 };
     for case in 0..n_cases {
         let big = thorough && case % 40 == 0;
@@ -478,6 +513,15 @@ pub fn exec(t: &[&str]) -> String {
                 if *queries == "-" { Some(vec![]) } else { queries.split(',').map(|q| parse_id(q).map(BlobId::from)).collect() };
             let Some(qs) = qs else { return "bad-op".into() };
             run(mode, src, files, &qs)
+        }
+        ["psize", size, blobs] => {
+            let size = if *size == "-" { None } else { match size.parse::<u32>() { Ok(x) => Some(x), Err(_) => return "bad-op".into() } };
+            let bl: Option<Vec<IndexBlob>> = if *blobs == "-" { Some(vec![]) } else { blobs.split('+').map(parse_blob).collect() };
+            let Some(bl) = bl else { return "bad-op".into() };
+            let p = IndexPack { id: PackId::default(), blobs: bl, time: None, size };
+            // the panic of a checked build is this channel's observation (the model has the same case), not a failure of the channel
+            let r = guarded(move || p.pack_size().to_string());
+            if r == "panic:attempt_to_add_with_overflow" { "ok overflow-panic".into() } else { format!("ok {r}") }
         }
         _ => "bad-op".into(),
     })
